@@ -308,6 +308,7 @@ def run(rep, tier, seed):
     lookups(rep, tier, rng, up, dist)
     # ---- C19_builder_equiv on malformed directories: the crafted regions of C17, listed by all three builds
     crafted(rep, tier, rng, dist)
+    foreign_sfn_renames(rep, dist)
     rep.cov["distribution"] = dist
     rep.cov["rule"] = ("a history = ~%d seeded ops (create/write/rename/remove/list/open by differently-cased names, malformed names) on FAT12/16/32, run under the "
                        "three feature sets; counted when alloc vs no-alloc agree on every observation and on the final image AND unicode vs no-unicode agree "
@@ -339,6 +340,40 @@ def crafted(rep, tier, rng, dist):
         else:
             rep.distinct(("crafted", i))
     dist["crafted_directories"] = len(cases)
+
+
+def foreign_sfn_renames(rep, dist):
+    """short-name-only entries as Windows NT / Linux vfat store all-lowercase 8.3 names (no long-name slots, the lowercase flags
+    0x08 / 0x10 in byte 12) - this library never writes them - then same-directory renames onto every spelling of the own
+    name (the flag-applied one, the raw upper-case one, a mixed one) and onto new names; ASCII only: every build must show the
+    same observations and leave the same image"""
+    import namelib
+    from props import c17
+    su = VOLS["12"] + ["dump 0 512"]
+    g = namelib.geom_of(vlib.run_scripts([su], "default")[0][3].payload)
+    ents = [(b"README  TXT", 0x18), (b"NOTES   TXT", 0x18), (b"PLAIN   TXT", 0x00), (b"BASELOW BIN", 0x08), (b"EXTLOW  BIN", 0x10), (b"NOEXT      ", 0x08)]
+    pokes = ["poke %d %s" % (g.root_off + 32 * i, c17.sfn(n, 0x20, res=fl).hex()) for i, (n, fl) in enumerate(ents)]
+    sc = VOLS["12"] + pokes + ["mount 1 0 lossy", "list 0"]
+    for a_, b_ in [("readme.txt", "readme.txt"), ("notes.txt", "NOTES.TXT"), ("PLAIN.TXT", "PLAIN.TXT"), ("plain.txt", "Plain.Txt"), ("baselow.BIN", "baselow.BIN"),
+                   ("EXTLOW.bin", "extlow.bin"), ("noext", "noext"), ("NOEXT", "NoExt"), ("readme.txt", "README.TXT"), ("notes.txt", "notes2.txt"), ("BASELOW.BIN", "baselow.bin")]:
+        sc += ["rename 0 %s 0 %s" % (hexs(a_), hexs(b_)), "list 0"]
+    sc += ["open_file 0 %s 9" % hexs("ReadMe.TXT"), "drop_all", "unmount", "mount 1 0 lossy", "list 0", "unmount", "pages"]
+    obs = {}
+    for v in VARIANTS:
+        rs = vlib.run_scripts([sc], v)[0]
+        obs[v] = [observe(r, True) for r in rs]
+        bad = [r for r in rs if r.kind in ("panic", "hang", "bad")]
+        if bad:
+            rep.violation("%s build: %r on short-name-only entries with lowercase flags" % (v, bad[0]), {"script": sc, "variant": v}); return
+    rep.count()
+    for v in VARIANTS[1:]:
+        if obs[v] != obs["default"]:
+            k = next(i for i in range(len(sc)) if obs[v][i] != obs["default"][i])
+            rep.violation("the default and the %s build differ at %r on a volume holding short-name-only entries with lowercase flags (ASCII names only): %s | %s"
+                          % (v, sc[k][:60], str(obs["default"][k])[:200], str(obs[v][k])[:200]), {"script": sc[:k + 1], "variants": ["default", v]})
+            return
+    rep.distinct(("foreign-sfn-renames",))
+    dist["foreign_sfn_rename_ops"] = 11
 
 
 def lookups(rep, tier, rng, up, dist):
